@@ -82,13 +82,19 @@ impl List {
         empty: bool,
         compact: bool,
     ) -> Result<Self, Error> {
-        // Compute array size
-        let array_size = if compact { coupon_count } else { 1 << lg_arr };
+        // The table always has 2^lg_arr slots; a compact image stores only the first `coupon_count` of them
+        let array_size = 1 << lg_arr;
+        let num_stored = if compact { coupon_count } else { array_size };
+        if num_stored > array_size {
+            return Err(Error::deserial(format!(
+                "list coupon count {coupon_count} exceeds table size {array_size}"
+            )));
+        }
 
         // Read coupons
         let mut coupons = vec![0u32; array_size];
         if !empty && coupon_count > 0 {
-            for (i, coupon) in coupons.iter_mut().enumerate() {
+            for (i, coupon) in coupons.iter_mut().take(num_stored).enumerate() {
                 *coupon = cursor.read_u32_le().map_err(|_| {
                     Error::insufficient_data(format!(
                         "expect {coupon_count} coupons, failed at index {i}"
